@@ -305,6 +305,10 @@ def reader_binding(ctx, fn, read):
 def _follow_local(ctx, f, name):
     prog = ctx.prog
     attr, tag = None, None
+    # a direct store `instance.attr = local` is the restore site; other uses of the local derive further state from it
+    for n in walk_no_nested(f.node):
+        if isinstance(n, ast.Assign) and isinstance(n.targets[0], ast.Attribute) and isinstance(n.value, ast.Name) and n.value.id == name:
+            return n.targets[0].attr, None
     for n in walk_no_nested(f.node):
         if isinstance(n, ast.Assign) and isinstance(n.targets[0], ast.Attribute):
             names = [x for x in ast.walk(n.value) if isinstance(x, ast.Name) and x.id == name]
